@@ -53,7 +53,10 @@ CHECKS = {
         "c04_marker_merge_sorted, c04_selection_keyed_by_parent, c04_selection_result_order_independent / _keys / _total (the returned lookup lists the parents in parent_list order whatever the completion order: finding F19c04, repaired in /repo 9a355c6), c04_pool_invariant, c04_selection_schedule_independent, c04_cache_sorted_by_reference_index / c04_cache_groups_strictly_sorted / c04_cache_independent_of_listing (the marker cache depends only on the SET of genes under each key: where hash-seed dependence would enter). Tie: the real stages (run_mapping, run_type_assignment_on_h5ad, statistics, markers, p-value mask, selection) under "
         "every completion order of 3 (quick) / 4 (thorough) workers forced by harness-side delays, worker-count sweeps 1..6, and fresh interpreters under several PYTHONHASHSEED "
         "values; outputs compared bitwise; observed chunks, completion order and per-worker seeds compared with the model.",
-   note="Partial by nature: real scheduling, Manager proxies and the absence of other nondeterminism (shared state, set/dict order) are established only by the bitwise runs. "
+   note="After the audit of section 15: stats_result folds the buffers in the order read off the EStart events of the log and c04_stats_buffer_order_is_dispatch_order proves that order is seq 0 k for every world; "
+        "mapping_result takes the world and the worker count (c04_same_chunks_same_result: equal effective chunking, any clean worlds, any append orders -> the sequential result; c04_small_chunk_size_used_as_given; tie tag 407); "
+        "the final drain of select_all_markers no longer extends completed_parents in the model (as in the code: observed through the frame's locals), c04_pool_invariant at every state of the outer loop, c04_pool_invariant_after_final_drain. "
+        "Partial by nature: real scheduling, Manager proxies and the absence of other nondeterminism (shared state, set/dict order) are established only by the bitwise runs. "
         "per-chunk work is an abstract function.",
    technique="Coq proof of hand-written Gallina model + correspondence check (real stages under controlled schedules / hash seeds, bitwise comparison and model replay)", ref="DESIGN.md section 7 C04"),
  'C05': dict(
@@ -63,7 +66,8 @@ CHECKS = {
         "of the column-major view) and c05_encodings_agree (dense, CSR and CSC encodings of one matrix iterate to the same rows), and the get_batch theorems (see note). Tie: AnnDataRowIterator / get_batch / "
         "inner functions on generated matrices (empty rows and columns, one row, >100 stored values) x {dense, CSR, CSC} x {X, layer} x dtypes x HDF5 chunk shapes x "
         "chunk sizes x max_gb down to the enforced minima, vs the extracted model.",
-   note="get_batch is proved too: c05_get_batch_exact / c05_load_disjoint_exact / _dense / _csc (every non-empty duplicate-free in-range row list returns those rows in the requested "
+   note="Last sentence of the property: c05_encodings_same_rows_for_consumers / c05_encodings_same_stream / c05_stats_same_for_all_encodings (any function of the row stream, in particular Stats.precompute, agrees across dense / CSR / CSC); "
+        "operation sequences on one iterator object (next() interleaved with get_chunk / get_batch / __getitem__) are part of the tie. get_batch is proved too: c05_get_batch_exact / c05_load_disjoint_exact / _dense / _csc (every non-empty duplicate-free in-range row list returns those rows in the requested "
         "order) and c05_get_batch_rejects / _dense / _csc (empty, duplicate or out-of-range lists yield an error, never wrong rows); "
         "h5py slicing and scipy toarray are trusted; F2c (CSC matrix without any stored value made the conversion raise) was repaired in /repo (2b803dd).",
    technique=TECH, ref="DESIGN.md section 7 C05"),
@@ -75,7 +79,9 @@ CHECKS = {
         "showing the guard matters). Tie: convert_to_cpm (exact stream / 1e-12 stream decided per row), CellByGeneMatrix constructor and random operation sequences, "
         "write_query_markers_to_h5 + is_data_ge_zero + AnnDataRowIterator + assemble_query_data vs prepare_query, plus paired real run_mapping runs (raw vs "
         "pre-normalised, scaling, gene permutation, extra genes, negative value rejected).",
-   note="The theorems are about prepare_query (the per-parent query matrices); that this determines every vote is C02's model. The only assumption about log2(1+.) is "
+   note="The theorems are about prepare_query (the per-parent query matrices); the bridge to the result is proved: c07_equal_profile_equal_vote / c07_equal_parent_matrix_equal_vote (equal rows on a parent's markers -> equal vote_record and decide_vote, generator state included) "
+        "and the composed c07_scale_invariant_vote, c07_scale_invariant_rational_vote, c07_raw_equals_declared_vote, c07_gene_permutation_vote, c07_extra_genes_vote, c07_only_marker_values_by_name_vote; c07_scale_invariant_rational_matrix lifts the rational factor to the matrix. "
+        "Raw counts and factors are integers (or a rational factor between two integer matrices): the harness generates integer counts and says so in its evidence; non-integer factors change log2CPM by ~1e-15 in the real code, which the property allows (bitwise only for permutation / extra genes). The only assumption about log2(1+.) is "
         "that it depends on the value of its argument alone. Floating-point rounding is outside the model: values compared exactly where every float operation is "
         "exact by construction, at 1e-12 relative otherwise; run_mapping pairs bitwise for permutation / extra genes / power-of-two scaling, 1e-9 otherwise.",
    technique=TECH, ref="DESIGN.md section 7 C07"),
@@ -86,7 +92,9 @@ CHECKS = {
         "c09_truncation (full: the truncated file holds the tree with the levels dropped, again valid, and for every new leaf the statistics of exactly the cells below it = direct computation against the coarser hierarchy; leaf level and several levels included), c09_truncation_total(_writer), c09_truncation_partial, c09_truncation_groups, c09_collapse_is_additive, c09_merge_idempotent, c09_merge_order_irrelevant(_without_ties), c09_merge_names_matter_with_ties. "
         "Tie: precompute_summary_stats_from_h5ad[_list_and_tree], truncate_precomputed_stats_file, merge_precompute_files on generated references x file splits x encodings "
         "x rows_at_a_time x workers vs the extracted model.",
-   note="Float summation not modelled: sums exact on dyadic inputs, within 2(n+2) eps sum|x| on raw counts. F2s (CSC file without stored values) repaired in /repo (2b803dd).",
+   note="c09_unlabelled_contribute_nothing is now the file-level statement (a file with unlabelled cells gives the table of the file without them, for every chunking and worker count of either run) and c09_only_labelled_cells_matter generalises it; "
+        "ge1 is modelled as the code computes it (log2(CPM+1) > 1 - 1e-6): c09_ge1_against_exact (gt1 <= exact >= 1 count <= ge1; equality on grids of step 1/D, D <= 999999, and on integer data), c09_ge1_exact_refuted (known finding F26: a cell with 0.9999986 < CPM < 1 is counted as 'at least 1'). "
+        "Float summation not modelled: sums exact on dyadic inputs, within 2(n+2) eps sum|x| on raw counts. F2s (CSC file without stored values) repaired in /repo (2b803dd).",
    technique=TECH, ref="DESIGN.md section 7 C09"),
  'C11': dict(
    text="Theorems: c11_holm_tie_invariant (for every argsort result), c11_restricted_holm_equiv / _decisions (the restricted Holm variant decides exactly as full Holm at "
@@ -95,7 +103,11 @@ CHECKS = {
         "(every n_per), c11_worker_independent, c11_tables_total, c11_empty_direction_table (F17 repaired in /repo 90f7980), c11_mask_file_exact, c11_mask_file_strict_is_zero, c11_mask_route_sound, c11_mask_route_complete. Tie: correct_ttest / "
         "approx_correct_ttest / penetrance tests / score_differential_genes / _get_validity_mask on a dyadic grid where binary64 is exact, and both marker routes end to end "
         "on generated statistics files vs the extracted model.",
-   note="c11_boring_t_sound rests on stated premises about scipy's CDFs (Section hypotheses, not proved; norm_cdf(-boring_t) >= p_th/2 is also checked numerically per run); the big_nu approximation is not covered; c11_tables_transpose is C13's. Known finding F16 (mask route has no n_cells_min test); F8 and F17 repaired in /repo.",
+   note="c11_boring_exact_p_ge / c11_boring_t_sound / _code rest on premises about scipy's Student CDF on [-boring_t, boring_t] (end points end_lo / end_hi per occurring nu, monotonicity, NaN convention) that the harness CHECKS on every (t, nu) that occurs "
+        "(class c11-boring-premise-false-on-occurring-value); c11_boring_needs_end_lo shows the premise is necessary and it fails for nu above ~3e6..9e6 (known finding F22, reproduced on the real score_differential_genes). "
+        "Model/Welch.v derives t^2, sign, nu, penetrances, q-scores, fold and means from summary-statistics rows (IEEE corner cases n = 0, n = 1, zero variance explicit): c11_sound_from_stats, c11_complete_from_stats, c11_sound_exact_welch, c11_welch_route_decisions, "
+        "c11_welch_zero_variance / _p_nan / _empty_cluster, swap symmetry proved (c11_welch_swap_statistic / _boring / _scores / _p with c11_welch_swap_p_clip_caveat); tie tags 1150-1154 on exact-grid inputs with scipy's t.cdf as a per-gene oracle. "
+        "c11_tables_transpose: the pair-major marker table is wf_comp, so C13's transpose theorems apply to it. pair_wf and 1 <= np are explicit hypotheses (ragged input / zero workers raise in Python: totalisation_cases). The big_nu approximation is not covered (both routes pass None). Known finding F16 (mask route has no n_cells_min test); F8 and F17 repaired in /repo.",
    technique=TECH, ref="DESIGN.md section 7 C11"),
  'C10': dict(
    text="20 theorems over unbounded trees about a model of validate_taxonomy_tree, get_taxonomy_tree, get_child_to_parent, convert_tree_to_leaves, get_all_leaf_pairs, _drop_level, "
@@ -105,7 +117,9 @@ CHECKS = {
         "c10_drop_preserves, c10_drop_errors, c10_drop_many_preserves, c10_drop_keeps_leaf_lists, c10_drop_leaf_preserves, c10_flatten_preserves, c10_roundtrip_preserves, "
         "c10_backfill_spec, c10_backfill_fills. Tie: every tree shape with <= 4 levels and <= 5 (quick) / 6 (thorough) leaves in canonical and shuffled variants, random larger trees, "
         "one-edit mutants, label tables (also through from_h5ad), random drop sequences and backfill records, through every public TaxonomyTree method vs the extracted model.",
-   note="F3 (validator accepted a child listed twice) was repaired in /repo (ce0265d); the model follows the repaired validator and the statements that needed repetition-free child lists "
+   note="Serialise / re-read: Model/TreeReread.v (clean_for_json sorts sets only; which collections are sets is an explicit flag list), c10_child_order_irrelevant, c10_reread_preserves, c10_reread_shape, tie tag 1050 against from_str(to_str()) and json round trips; "
+        "queries on non-nodes: c10_queries_total_on_nodes, c10_drop_preserves_on_nodes, c10_roundtrip_on_nodes (the checked queries raise where the code raises); c10_backfill_models_agree links Tree.backfill and RunMapping.backfill; "
+        "the tree must not alias the caller's dict (in-place edits of the source, all queries re-asked) is part of the tie. F3 (validator accepted a child listed twice) was repaired in /repo (ce0265d); the model follows the repaired validator and the statements that needed repetition-free child lists "
         "now hold for every accepted tree. from_data_release / from_precomputed_stats / from_json_file constructors not exercised; level names distinct and not reserved keys.",
    technique=TECH, ref="DESIGN.md section 7 C10"),
  'C12': dict(
@@ -115,7 +129,9 @@ CHECKS = {
         "c12_pair_order_irrelevant, c12_greedy_order_irrelevant, c12_behemoth_order_is_permutation, c12_thinning_sound. Tie: trace refinement — the gene sequence returned by "
         "select_marker_genes_v2 / _run_selection is replayed through the model (every step legal, finished exactly at the end; mutilated sequences must be rejected) and census, "
         "final utility array and statistics compared; select_all_markers / create_marker_gene_lookup_from_ref_list over workers 1..4 x behemoth cut-offs {0,1,1e9}; independent census.",
-   note="genes_at_a_time = 1 only; np.argsort tie order is an input (trace replay); the coverage theorem's hypothesis (no gene both ways) is checked on every generated table and shown "
+   note="Every genes_at_a_time >= 1 (Model/SelectionK.v: argsort only when a slot was newly filled, k pops with nothing recomputed, breaks only between batches): c12_batch_one_is_step, c12_batch_no_duplicates, c12_batch_coverage, c12_batch_spec_holds, "
+        "c12_batch_trace_legal, c12_batch_invariant_preserved, c12_batch_head_is_marker, c12_batch_terminates, c12_batch_iterations_bounded, c12_batch_no_raise_when_enough_genes, c12_batch_completes_only_with_enough_genes; "
+        "for k >= 2 the clause 'marks a pair of the parent' and totality are refuted (c12_batch_in_query_and_marker_refuted, c12_batch_returns_refuted_empty_list / _chosen_twice: findings F23-F25, see known_findings.json for their status). np.argsort tie order is an input (trace replay); the coverage theorem's hypothesis (no gene both ways) is checked on every generated table and shown "
         "necessary by an Example; several reference files, parent_list and drop_level not exercised.",
    technique="Coq proof of hand-written Gallina model + trace-refinement correspondence check (choice sequences of the real code replayed through the extracted model)", ref="DESIGN.md section 7 C12"),
  'C13': dict(
@@ -126,7 +142,9 @@ CHECKS = {
         "c13_parallel_empty, c13_slices_partition, c13_copy_h5_1d/2d, c13_copy_layer_sparse/dense. Tie: every 0/1 pattern up to 3x3 (quick) / 4x4 (thorough) + random larger matrices "
         "through transpose_sparse_matrix_on_disk, csc_to_csr_on_disk, the v2 parallel version (1-4 workers), pivot_csr_h5ad, shuffle_csr_h5ad_rows, subset_csc_h5ad_columns, "
         "amalgamate_h5ad, copy_layer_to_x, copy_h5_excluding_data, with observed loop bounds compared to the model's.",
-   note="shuffle / subset / amalgamate are proved too: c13_shuffle_rows (every permutation; the non-permutation reading refuted by c13_shuffle_rows_sublist_refuted: shuffle_csr_h5ad_rows does not "
+   note="Guards made explicit after the audit (section 15): a slice has lo <= hi (c13_parallel_slices: the only caller never hands out another one), the pointer array is well formed in c13_transpose_is_spec / c13_parallel_concat, "
+        "c13_count_pass needs minor indices < n (Python raises IndexError otherwise), c13_amalgamate's dense clause needs a source and a column; c13_parallel_exact (direct value clause), c13_copy_layer_dense_total, "
+        "c13_amalgamate_rowcount_unchecked (amalgamate_csr_to_x never validates the row count: the model now does what h5py does; tie harness/props/c13_guards.py). shuffle / subset / amalgamate are proved too: c13_shuffle_rows (every permutation; the non-permutation reading refuted by c13_shuffle_rows_sublist_refuted: shuffle_csr_h5ad_rows does not "
         "validate its order), c13_subset_columns, c13_amalgamate, c13_amalgamate_join, c13_amalgamate_wire; gzip not modelled; "
         "the zero-size-chunk family (F2, F2w, F4, F4z, F4m, F2a, amalgamate-empty-piece, copy-layer-empty-sparse) was repaired in /repo (2b803dd); the model follows the repaired code.",
    technique=TECH, ref="DESIGN.md section 7 C13"),
@@ -136,7 +154,9 @@ CHECKS = {
         "no runner-up fields), c17_flatten_equals_one_level, c17_drop_absent_level_noop, c17_backfilled_path (the completed cell is a flagged root-to-leaf path of the stored "
         "tree), c17_no_key_error, c17_total, c17_reduced_tree_parents (ancestors in the reduced tree = stored ancestors without the dropped level). Tie: real drop_level / flatten / backfill_assignments on every tree shape up to 4 levels x every droppable level / flatten / absent "
         "level vs the model; every query (parents, children, as_leaves, leaves_to_compare) of the really reduced TaxonomyTree vs the model's reduced tree; oracle election on the really reduced tree; paired real run_mapping runs compared bitwise and replayed through the model.",
-   note="Vote, marker reconciliation, chunking and re-ordering are abstract or outside RunMapping.v (C02/C08/C01/C04); tree_ok adds 'no childless internal node' to the "
+   note="c17_drop_equals_reduced / c17_flatten_equals_one_level compare two runs that execute the same election on the reduced tree (c17_both_runs_same_election says so); what they prove is the backfill relation; strict forms without the KeyError alternative: "
+        "c17_drop_equals_reduced_strict, c17_flatten_equals_one_level_strict. Marker-table keys: Model/RunMappingKeys.v rekey, c17_marker_key_convention, c17_drop_equals_reduced_named, c17_flatten_ignores_keys, c17_removed_entries_not_consulted (tie tag 1707 against the real validate_marker_lookup on the really dropped tree). "
+        "Vote, marker reconciliation, chunking and re-ordering are abstract or outside RunMapping.v (C02/C08/C01/C04); tree_ok adds 'no childless internal node' to the "
         "validator's guarantees (F3).",
    technique=TECH, ref="DESIGN.md section 7 C17"),
  'C19': dict(
@@ -146,7 +166,9 @@ CHECKS = {
         "and each ends as in its solo run). Tie: the four real stages run under strace -f in child interpreters; parsed traces decided by the extracted acceptor, the model's "
         "final file system compared with the observed listing; digests, listings and results compared with an undisturbed run; histories: success after success / failure / "
         "injected worker failure, stale files under every temporary-name pattern, obsm_key, concurrent pairs replayed as one interleaving, direct calls of the type-assignment stage with a shared results_output_path (stale buffers under every plausible name), runs without a scratch directory (system temp and working directory observed).",
-   note="Partial by nature: the theorems speak about accepted traces; that real runs produce accepted traces is established only for the runs traced. tempfile uniqueness, CPython "
+   note="FileTracker + mkstemp_clean + _clean_up are modelled as a state machine (Model/Tracker.v) with theorems over arbitrary op sequences of one tracker life: c19_tracker_inputs_untouched (+ _no_tmp_refuted: with tmp_dir=None the real_location IS the input), "
+        "c19_tracker_scratch_empty, c19_tracker_outputs_only_where_requested, c19_tracker_location_holds_last_write, c19_tracker_copy_faithful, c19_tracker_independent_of_stale, c19_tracker_life_keeps_wf; tie tags 1950-1953 (real FileTracker lives, state compared after every call). "
+        "Partial by nature: the acceptor theorems speak about accepted traces; that real runs produce accepted traces is established only for the runs traced. tempfile uniqueness, CPython "
         "destructor timing, HDF5's O_RDWR probe and stat-like probes are outside the model. F9 / F9c / F9d (result buffer and query-marker file left behind by failed runs or runs without a scratch dir) were repaired in /repo (70038ee); F9b (log appended to an earlier log) stays a known finding.",
    technique="Coq proof of hand-written Gallina acceptor model + correspondence check (strace'd traces of the real stages decided by the extracted acceptor)", ref="DESIGN.md section 7 C19"),
  'C06': dict(
@@ -180,7 +202,9 @@ CHECKS = {
         "against stand-in processes following the model's world (virtual schedules) and exhaustive fault injection with forked workers — 3 failure modes (SIGKILL, os._exit(3), raise) x "
         "3 crash points x every worker on all six stages (+ the nested transposition) — observing exception, exit codes, listings after all descendants exit, JSON/HDF5 keys, log text "
         "and whether the next stage accepts what is left.",
-   note="Partial by nature: the OS, multiprocessing and the stage code's conformance to the models are validated by controlled runs, not proved. A hanging worker, a dying Manager process and a crash of the parent are not modelled. The clean-up race of the finally blocks (siblings "
+   note="exit codes are modelled mod 256 (c14_abnormal_codes, c14_exit_256_refuted: os._exit(256) is invisible to the parent; tie tag 1406 on real forked workers); c14_failed_run_leaves_query_untouched, c14_early_failure_no_obsm; "
+        "c14_failed_trace_has_property and c14_no_complete_output are finite checks GIVEN the transcription of the stages in Model/Pool.v / RunEffects.v (said so in their comments); completed_parents of the selection scheduler is observed through the frame's locals. "
+        "Partial by nature: the OS, multiprocessing and the stage code's conformance to the models are validated by controlled runs, not proved. A hanging worker, a dying Manager process and a crash of the parent are not modelled. The clean-up race of the finally blocks (siblings "
         "still writing when the parent removes the scratch dir: OSError replaces RuntimeError about 1 in 300) is an oracle input.",
    technique="Coq proof of hand-written Gallina model + correspondence check (fault enumeration on the real stages and virtual-schedule runs of the real loops vs the extracted model)", ref="DESIGN.md section 7 C14"),
  'C15': dict(
@@ -188,7 +212,9 @@ CHECKS = {
         "c15_roundtrip_without_uniform_flags_refuted (necessity), c15_csv_rows, c15_four_decimals (+ c15_csv_confidence_four_decimals_refuted), "
         "c15_query_order, c15_tree_reconstructs. Tie: generated result blobs (depth 1-5, names with commas/quotes/newlines, 0..k runners-up, inferred "
         "levels, malformed stream) through the real blob_to_csv / blob_to_hdf5 / hdf5_to_blob / re_order_blob / to_str-from_str vs the extracted model.",
-   note="pandas CSV quoting and %.4f, gzip, h5py and json float printing are trusted; floats finite; F15 (column decided by substring of the level name) is a known finding.",
+   note="CSV text and %.4f are modelled and proved (Model/CsvText.v: Python 3.12 csv.writer as pandas calls it, the pandas C tokenizer state by state, comment='#'): c15_csv_text_roundtrip, c15_csv_text_injective, c15_csv_comment_lines_safe, "
+        "c15_dyadic_is_the_value, c15_fmt4_nearest, c15_fmt4_ties_even, c15_fmt4_monotone, c15_fmt4_unit_interval, c15_fmt4_digits_roundtrip; refuted with witnesses: c15_csv_hash_cell_id_row_vanishes_refuted, c15_csv_hash_in_name_truncates_row_refuted (F20), "
+        "c15_csv_carriage_return_refuted (F21); tie tags 1550-1554: file text byte for byte, tokenizer output, documented read-back, '%.4f' on doubles incl. exact ties. gzip, h5py and json float printing are trusted; floats finite; F15 (column decided by substring of the level name) is a known finding.",
    technique=TECH, ref="DESIGN.md section 7 C15"),
  'C18': dict(
    text="Theorems: c18_centroid_partial (one iteration: a query row equal to leaf l's mean profile and non-constant on the drawn subset gets correlation 1 with l, "
